@@ -140,6 +140,9 @@ download_add(Object* object, uint32_t tracker_key) {
   else
     infoHash = object_sha1(&object->get_key("info"));
 
+  if (infoHash == std::string(20, '\0'))
+    throw input_error("Invalid info hash.");
+
   if (manager->download_manager()->find(infoHash) != manager->download_manager()->end())
     throw input_error("Info hash already used by another torrent.");
 
